@@ -17,6 +17,7 @@ type Val struct {
 	Multi []*Val
 	Fn    *Closure
 	Const constant.Value
+	Dyn   *Val // for interface values created by boxing: the concrete value
 }
 
 type Closure struct {
